@@ -121,6 +121,13 @@ def check_flags(prog, ctx, an):
             if allowed is None:
                 allowed = {f.params()[0]} if (f.cls is not None and not f.is_static and f.params()) else set()
             bad = [e for e in effs if e.root[2:] not in allowed]
+            if bad and f.cls is None and f.name.startswith("_") and not f.name.startswith("__"):
+                # a private module-level command updates a container its caller hands in (`_set_lazy_phase(phases, ...)`);
+                # the summaries carry the write to every caller, where it is judged against that caller's contract
+                users = [g for g in an.summaries if g is not f and any(c is f for (_, c) in an.call_sites.get(g, ()))]
+                ctx.ok("R14.2", f"{f.file}:{f.qualname}",
+                       f"private helper command writes to its argument(s) {sorted({e.root[2:] for e in bad})}: judged at its {len(users)} caller(s)")
+                continue
             for e in bad:
                 ctx.bad("R14.2", f, e.node, src(e.node),
                         f"command (returns nothing) performs {e.describe()} outside its target {sorted(allowed)}")
@@ -186,10 +193,21 @@ def _lazy_shape(f, e):
 
 
 def _memo_shape(f, e, attr):
+    """a memo function returns the slot (directly, through a local bound to it, or a local assigned together with it)"""
     if e.path != (attr,):
         return False
+    from engine.astutil import memo_aliases
+
+    me = f.params()[0] if f.params() else None
+    names = set(memo_aliases(f.node, attr, me))
+    for a in walk_own(f.node):
+        if isinstance(a, ast.Assign) and any(isinstance(t, ast.Attribute) and t.attr == attr for t in a.targets):
+            names |= {t.id for t in a.targets if isinstance(t, ast.Name)}
+            if isinstance(a.value, ast.Name):
+                names.add(a.value.id)
     rets = [n for n in walk_own(f.node) if isinstance(n, ast.Return)]
-    return bool(rets) and all(isinstance(r.value, ast.Attribute) and r.value.attr == attr for r in rets)
+    return bool(rets) and all((isinstance(r.value, ast.Attribute) and r.value.attr == attr)
+                              or (isinstance(r.value, ast.Name) and r.value.id in names) for r in rets)
 
 
 def check_copies(prog, ctx, an):
@@ -467,8 +485,53 @@ def check_dynamic(prog, ctx):
             if isinstance(n, ast.Call) and isinstance(n.func, ast.Name) and n.func.id == "getattr":
                 if len(n.args) >= 2 and not isinstance(n.args[1], ast.Constant):
                     recv = src(n.args[0])
-                    ctx.check(recv in ("rng",), "R14.2", f, n, src(n),
-                              "getattr with a computed name only on the numpy random generator `rng`")
+                    if recv in ("rng",):
+                        ctx.ok("R14.2", f"{f.file}:{f.qualname}", f"{src(n)}: computed attribute of the numpy random generator")
+                        continue
+                    # a name that is a parameter of a private helper: resolved at the helper's call sites, every one of which
+                    # must pass a literal naming a method whose summary writes to no operand
+                    ok, why = _dynamic_method_ok(prog, f, n)
+                    ctx.check(ok, "R14.2", f, n, src(n),
+                              "getattr with a computed name: every call site passes a literal method name and none of those methods "
+                              "writes to its operand" + ("" if ok else f" ({why})"))
+
+
+def _dynamic_method_ok(prog, f, call):
+    from engine.effects import get_analyzer
+
+    name_arg = call.args[1]
+    if not (isinstance(name_arg, ast.Name) and name_arg.id in f.all_params() and f.cls is None and f.name.startswith("_")):
+        return False, "the name is not a parameter of a private module-level helper"
+    pos = f.all_params().index(name_arg.id)
+    an = get_analyzer(prog)
+    literals = set()
+    nsites = 0
+    for g in prog.funcs.values():
+        for c in ast.walk(g.node):
+            if isinstance(c, ast.Call) and isinstance(c.func, ast.Name) and c.func.id == f.name \
+                    and prog.resolve_name(g.module, f.name) is f:
+                nsites += 1
+                a = None
+                if pos < len(c.args):
+                    a = c.args[pos]
+                for k in c.keywords:
+                    if k.arg == name_arg.id:
+                        a = k.value
+                if not (isinstance(a, ast.Constant) and isinstance(a.value, str)):
+                    return False, f"call site in {g.qualname} passes a non-literal name"
+                literals.add(a.value)
+    if not nsites:
+        return False, "no call site found"
+    for m in sorted(literals):
+        for target in prog.methods_named(m):
+            summ = an.summaries.get(target)
+            if summ is None:
+                continue
+            bad = [e for e in summ.writes.values() if e.root.startswith("p:")
+                   and not any(t == "lazy-init" or t.startswith("memo:") for t in e.tags)]
+            if bad:
+                return False, f"method {target.qualname} writes to its operand"
+    return True, ""
 
 
 def run(prog, ctx):
